@@ -98,4 +98,79 @@ theorem alignAllocation_good (vm : VMConsts) (debug : Bool) (ka km kx region ali
     unfold padSpec
     omega
 
+/-! ## (1) bump pointer: `BumpAllocator::alloc`, `ImmixAllocator::alloc` / `overflow_alloc` -/
+
+/-- a legal bump-allocation request in state `b`: legal `(align, offset)`, a `MIN_ALIGNMENT`-aligned
+cursor (blocks are page aligned and sizes are multiples of `MIN_ALIGNMENT`), user-space addresses -/
+structure BumpLegal (vm : VMConsts) (ka km kx : Nat) (b : Bump) (size align offset : Nat) : Prop where
+  legal : LegalAlign vm ka km kx align offset vm.minAlign
+  cursorAligned : vm.minAlign ∣ b.cursor
+  cursorSmall : b.cursor + align < 2^63
+  sizeSmall : size < 2^63
+
+/-- **the fast path, completely**: for every legal request it never panics; with
+`res = cursor + padSpec` it answers `slow` exactly when `res + size > limit`, and otherwise returns
+`res` and moves the cursor to `res + size`. -/
+theorem bump_fast_cases (vm : VMConsts) (debug : Bool) (ka km kx : Nat) (b : Bump) (size align offset : Nat)
+    (H : BumpLegal vm ka km kx b size align offset) :
+    (b.limit < b.cursor + padSpec b.cursor align offset + size ∧
+      bumpAllocAligned vm debug b size align offset = .slow) ∨
+    (b.cursor + padSpec b.cursor align offset + size ≤ b.limit ∧
+      bumpAllocAligned vm debug b size align offset =
+        .ok (b.cursor + padSpec b.cursor align offset)
+          ⟨b.cursor + padSpec b.cursor align offset + size, b.limit⟩) := by
+  obtain ⟨L, hck, hcs, hss⟩ := H
+  obtain ⟨r, hr, hge, hpad, hmod, hrk, hreq⟩ :=
+    alignAllocation_good vm debug ka km kx b.cursor align offset L hcs hck
+  rw [← hreq]
+  have hlt : r + size < 2^64 := by omega
+  by_cases hfit : r + size > b.limit
+  · left
+    refine ⟨by omega, ?_⟩
+    simp only [bumpAllocAligned, hr, cadd, hlt, if_true, hfit]
+  · right
+    refine ⟨by omega, ?_⟩
+    simp only [bumpAllocAligned, hr, cadd, hlt, if_true, hfit, if_false]
+
+/-- **C03, bump allocator, fast path**: if `alloc` succeeds on the fast path then
+`(res + offset) % align = 0`, `cursor ≤ res`, `res + size ≤ limit`, the new cursor is `res + size`,
+the limit is unchanged; moreover `res` is the least admissible address (`cursor + padSpec`), is
+`MIN_ALIGNMENT`-aligned, and the padding is at most `align - MIN_ALIGNMENT`. -/
+theorem bump_fast_ok (vm : VMConsts) (debug : Bool) (ka km kx : Nat) (b : Bump) (size align offset : Nat)
+    (H : BumpLegal vm ka km kx b size align offset) (res : Nat) (b' : Bump)
+    (h : bumpAllocAligned vm debug b size align offset = .ok res b') :
+    (res + offset) % align = 0 ∧ b.cursor ≤ res ∧ res + size ≤ b.limit ∧
+      b'.cursor = res + size ∧ b'.limit = b.limit ∧
+      res = b.cursor + padSpec b.cursor align offset ∧ vm.minAlign ∣ res ∧
+      res + vm.minAlign ≤ b.cursor + align := by
+  obtain ⟨r, hr, hge, hpad, hmod, hrk, hreq⟩ :=
+    alignAllocation_good vm debug ka km kx b.cursor align offset H.legal H.cursorSmall H.cursorAligned
+  rcases bump_fast_cases vm debug ka km kx b size align offset H with ⟨_, e⟩ | ⟨hfit, e⟩
+  · rw [e] at h; cases h
+  · rw [e] at h
+    injection h with h1 h2
+    subst h1 h2
+    rw [← hreq] at hfit ⊢
+    exact ⟨hmod, hge, hfit, rfl, rfl, rfl, hrk, hpad⟩
+
+/-- the fast path never trips an assertion / overflow check on a legal request -/
+theorem bump_fast_never_panics (vm : VMConsts) (debug : Bool) (ka km kx : Nat) (b : Bump)
+    (size align offset : Nat) (H : BumpLegal vm ka km kx b size align offset) :
+    bumpAllocAligned vm debug b size align offset ≠ .panic := by
+  rcases bump_fast_cases vm debug ka km kx b size align offset H with ⟨_, e⟩ | ⟨_, e⟩ <;>
+    rw [e] <;> intro h <;> cases h
+
+/-- the composed fast path refines the C02 model's `bumpAlloc` with `pad = res - cursor`; hence
+`bump_guard` / `bump_seq` (C02Algo) apply to every successful real allocation -/
+theorem bump_fast_refines (vm : VMConsts) (debug : Bool) (ka km kx : Nat) (b : Bump) (size align offset : Nat)
+    (H : BumpLegal vm ka km kx b size align offset) (res : Nat) (b' : Bump)
+    (h : bumpAllocAligned vm debug b size align offset = .ok res b') :
+    bumpAlloc b (res - b.cursor) size = some (res, b') := by
+  obtain ⟨_, h2, h3, h4, h5, _⟩ := bump_fast_ok vm debug ka km kx b size align offset H res b' h
+  have e : b.cursor + (res - b.cursor) = res := by omega
+  have hb : b' = { b with cursor := res + size } := by
+    cases b'; cases b; simp only [Bump.mk.injEq] at *; exact ⟨h4, h5⟩
+  simp only [bumpAlloc, e]
+  rw [if_neg (by omega), hb]
+
 end Mmtk.AllocArith
